@@ -90,6 +90,8 @@ def configs(tier):
             cfgs.append({"kind": "buffer", "n": n, "cons": [cons], "max_elems": 4 if tier == "quick" else 5})
         # the consumer's awaitable may raise (once per run)
         cfgs.append({"kind": "buffer", "n": n, "cons": ["future"], "max_elems": 4 if tier == "quick" else 5, "faults": True})
+    # falsy payloads (None, 0) are elements like any other
+    cfgs.append({"kind": "buffer", "n": 1, "cons": ["future"], "max_elems": 4 if tier == "quick" else 5, "falsy": {"none": 2, "zero": 3}})
     return cfgs
 
 
